@@ -818,10 +818,19 @@ func c19constructors(c *core.Ctx) {
 	dirField := map[string]string{} // receiver type name -> field key
 	for _, f := range p.Funcs {
 		if f.Parent() == nil && f.Pkg == p.Fpgo && f.Signature.Recv() != nil && f.Name() == "IsAscending" {
-			if r := core.ThinReturn(f); r != nil {
-				if k := core.FieldKey(r); k != "" {
-					dirField[core.TypeName(f.Signature.Recv().Type())] = k
+			key := ""
+			core.Instrs(f, func(ins ssa.Instruction) {
+				if r, isR := ins.(*ssa.Return); isR && r.Block() != f.Recover && len(r.Results) == 1 {
+					k := core.FieldKey(core.Resolve(r.Results[0]))
+					if k == "" || (key != "" && key != k) {
+						key = "-"
+					} else {
+						key = k
+					}
 				}
+			})
+			if key != "" && key != "-" {
+				dirField[core.TypeName(f.Signature.Recv().Type())] = key
 			}
 		}
 	}
